@@ -81,10 +81,29 @@ def opVm (j : Json) : P Json := do
         else throw s!"unknown step {t}"
   pure (Json.mkObj [("results", .arr outs)])
 
+/-- `{"op":"stack", layers, names}` : what the stack exposes (C02 / C09 / C18). -/
+def opStack (j : Json) : P Json := do
+  let raws ← (← jArr (← jField j "layers")).mapM rawLayerOfJson
+  let names ← jStrs (← jField j "names")
+  match sigOf (layersOf raws) with
+  | .error .graphError => pure (Json.mkObj [("construct_err", .str "GraphError")])
+  | .error .fieldError => pure (Json.mkObj [("construct_err", .str "FieldError")])
+  | .ok s =>
+    if s.dependencyError then pure (Json.mkObj [("dir_err", .str "DependencyError")])
+    else
+      let fields := names.map fun n =>
+        let o : Json := match s.field n with
+          | .fieldError => Json.mkObj [("err", .str "FieldError")]
+          | .identity => Json.mkObj [("identity", .bool true)]
+          | .computed sg t => Json.mkObj [("sig", toJson sg), ("value", valToJson (t.eval fun p => .str ("$" ++ p)))]
+        (n, o)
+      pure (Json.mkObj [("dir", toJson s.dir), ("fields", Json.mkObj fields)])
+
 def dispatch (j : Json) : P Json := do
   let op ← (← jField j "op").getStr?
   match op with
   | "vm" => opVm j
+  | "stack" => opStack j
   | "ping" => pure (Json.mkObj [("pong", .bool true)])
   | _ => throw s!"unknown op {op}"
 
